@@ -48,6 +48,11 @@ Definition chk_sync (c : sync_case) : bool :=
   trace_eqb (filter is_cmp_event (run sync_sched cf (init (sync0 tbl mx)) its)) impl.
 
 (* bool: does the code show the behaviour after the fix of F-C20-1 (probe in the driver)? *)
+Definition promo2_case := (cfg * list Z * Z * list (iter_in Z (option (Z * Z) * Z)) * list event)%type.
+Definition chk_promo2 (c : promo2_case) : bool :=
+  let '(cf, levels, max_t, its, impl) := c in
+  trace_eqb (filter is_cmp_event (run promo2_sched cf (init (promo2_0 levels max_t)) its)) impl.
+
 Definition dehb_case := (cfg * list (list (nat * Z)) * bool * bool * list (iter_in (option Q * Z) unit) * list event)%type.
 Definition chk_dehb (c : dehb_case) : bool :=
   let '(cf, tbl, mx, sup, its, impl) := c in
@@ -225,6 +230,9 @@ def run_case(spec):
             crash = "%s: %s" % (type(e).__name__, str(e)[:200])
     extra = dict(crash=crash, plan=be.plan_out, callbacks=[type(c).__name__ for c in tuner.callbacks],
                  pbt_fixed=PBT_FIXED.get("value", True))
+    if spec["kind"] in HB_KINDS:
+        extra["levels"] = [int(x) for x in sch.rung_levels]
+        extra["max_t"] = int(sch.max_t)
     if spec["kind"] in ("sync", "dehb"):
         extra["tbl"] = [[(int(s), int(l)) for s, l in rungs] for rungs in sch.bracket_manager.bracket_rungs]
     return be.log, extra
@@ -503,6 +511,27 @@ def model_cases(spec, log, extra):
                     sg.append("(Some %s)" % zl(e[1]))
             p_its.append(iter_term(reps, it["completed"], sg, it["cb"], it["failed"], it["hold"]))
         out["promo"] = "(%s, %s, %s)" % (cf, lst(p_its), impl)
+    if kind in HB_KINDS:
+        # the rung-system model: reports carry the resource; a resume proposes the entry (level of the
+        # trial's last PAUSE, trial); a new trial's first milestone (its bracket) = resource of its
+        # first PAUSE / STOP (max_t if it never gets there)
+        first_ms, last_pause = {}, {}
+        for e in log:
+            if e[0] == "decision" and e[2] != "CONTINUE":
+                first_ms.setdefault(e[1], e[3])
+        q_its = []
+        for it in its:
+            reps = ["(%s, %s)" % (zl(t), zl(d[3] if d else 0)) for t, d in pair_reports(it)]
+            sg = []
+            for e in it["body"]:
+                if e[0] == "decision" and e[2] == "PAUSE":
+                    last_pause[e[1]] = e[3]
+                elif e[0] == "start":
+                    sg.append("(None, %s)" % zl(first_ms.get(e[1], extra["max_t"])))
+                elif e[0] in ("resume", "resume_rejected"):
+                    sg.append("(Some (%s, %s), 0%%Z)" % (zl(last_pause.get(e[1], 0)), zl(e[1])))
+            q_its.append(iter_term(reps, it["completed"], sg, it["cb"], it["failed"], it["hold"]))
+        out["promo2"] = "(%s, %s, %s, %s, %s)" % (cf, lst([zl(x) for x in extra["levels"]]), zl(extra["max_t"]), lst(q_its), impl)
     if kind in ("sync", "dehb"):
         s_its = []
         for it in its:
@@ -660,7 +689,7 @@ def run(ctx, replay=None):
                           case=fs_meta[i], failing_input=False, broken="correspondence chk_fs (model/Checkpoint.v fs_step)")
         if replay is not None:
             return
-    layers = {"oracle": ([], []), "promo": ([], []), "sync": ([], []), "dehb": ([], []), "pbt": ([], [])}
+    layers = {"oracle": ([], []), "promo": ([], []), "promo2": ([], []), "sync": ([], []), "dehb": ([], []), "pbt": ([], [])}
     for spec in specs:
         log, extra = run_case(spec)
         case = dict(spec=dict(spec, plan=extra["plan"]))
